@@ -27,7 +27,7 @@ structure DS where
   np : List (String × Nat) := []          -- number of pieces of the torrents added from a .torrent
   spoiled : List String := []             -- ids whose stored record was damaged (it fails to load for ever)
   maxPieces : Nat := 0                    -- Config.MaxPieces of the running session (0 = default)
-  taint : List String := []               -- the history left the tame ones: "reload" (F07), "idreuse" (F08)
+  taint : List String := []               -- the history left the tame ones: "reload" (F07)
 
 def splitOnStr (s sep : String) : List String := s.splitOn sep
 
@@ -108,7 +108,7 @@ def parseObs (lo hi : Nat) (obs : String) (junk : List String := []) : Option (S
 
 /-- The C14 invariants on one observation `o` of the implementation.  `m` is the model's state seen the
 same way and `taint` says whether the history has left the tame ones: a failure that the model shows
-as well in such a history is the recorded finding (F07 / F08) and is named after it. -/
+as well in such a history is the recorded finding (F07) and is named after it. -/
 def invViolations (o : Obs) (m : Obs) (taint : List String) : List String :=
   let detail := s!"free={showNatList o.free} owned={showNatList (o.live.map (·.f.port))} range={o.lo}..{o.hi}"
   (if portConservation o then []
@@ -117,7 +117,6 @@ def invViolations (o : Obs) (m : Obs) (taint : List String) : List String :=
    else [s!"C14 port-conservation {detail}"]) ++
   (if idsUnique o then [] else ["C14 ids-or-index-inconsistent"]) ++
   (if registryEqDb o then []
-   else if taint.contains "idreuse" ∧ !registryEqDb m then ["C14 known-F08-invalid-id-reused-record-cleaned"]
    else
     let kind :=
       if !((o.db.map (·.1)).isPerm (o.live.map (·.id) ++ o.invalid.filter (fun i => !(o.live.map (·.id)).contains i))) then "id-sets-differ"
@@ -174,7 +173,8 @@ def stepOp (d : DS) (op implObs : String) : DS × String × List String × List 
       let d1 := { d' with st := some s' }
       let (viol, d2) := match parseObs s'.lo s'.hi implObs d1.junk with
         | some (_, o) => (invViolations o (observe s') d1.taint, { d1 with prevImpl := some o })
-        | none => (["C14 unparsable-observation"], d1)
+        | none => ([if implObs.startsWith "panic:close" then "C14 updateStats-nil-bucket-on-close"
+                    else if implObs.startsWith "panic:nilderef" then "C14 updateStats-nil-bucket" else "C14 unparsable-observation"], d1)
       -- the harness marks a live torrent whose in-memory info dictionary no longer hashes to its info-hash
       let rot := if (implObs.splitOn "INFOROT").length ≥ 2 then ["C14 info-dictionary-corrupted-in-memory"] else []
       (d2, res ++ " | " ++ showState d1 s', extraViol ++ viol ++ rot, tags)
@@ -195,16 +195,17 @@ def stepOp (d : DS) (op implObs : String) : DS × String × List String × List 
         let (p, gen) := match parseAddOk implRes with
           | some (id, port) => (port, id)
           | none => (s.free.headD 0, "model-generated-id")
-        -- an explicit id that is listed as invalid: the history is no longer tame (finding F08)
-        let untamed := !tame s (.add m o p gen env)
-        let d := if untamed then { d with taint := (d.taint ++ ["idreuse"]).eraseDups } else d
+        -- an explicit id that is listed as invalid (finding F08, fixed: the insert takes it off the list)
+        let reused := match o.id with
+          | some i => s.invalid.contains i
+          | none => false
         match addSeq s m o p gen env with
         | (s', .ok id) =>
           -- `resumer.Write` puts every key: a damaged record of the same id is whole again
           finish { d with addIds := d.addIds ++ [id], np := (id, npieces) :: d.np.filter (fun e => e.1 != id),
                           spoiled := d.spoiled.filter (· != id) } s' s!"ok id={id} port={p}" []
             (["branch:add-ok", "accepted", s!"branch:add-{if m.hasInfo then "torrent" else "magnet"}"] ++
-             (if untamed then ["branch:untamed-invalid-id-reused"] else []) ++ (if npieces > 1 then ["branch:add-multi-piece"] else []))
+             (if reused then ["branch:add-under-invalid-id"] else []) ++ (if npieces > 1 then ["branch:add-multi-piece"] else []))
         | (s', .error e) =>
           finish { d with addIds := d.addIds ++ [""] } s' (errStr e) [] [s!"branch:add-{errStr e}", "rejected"]
     | "cadd" =>
@@ -247,7 +248,7 @@ def stepOp (d : DS) (op implObs : String) : DS × String × List String × List 
       -- `updateStats` dereferences the bucket of every registered torrent without a nil check
       if updateStatsPanics s then
         finish d s "panic:nilderef"
-          [if d.taint.contains "idreuse" then "C14 known-F08-updateStats-nil-bucket" else "C14 updateStats-nil-bucket"] ["branch:flush-panics"]
+          ["C14 updateStats-nil-bucket"] ["branch:flush-panics"]
       else finish d (updateStats s) "ok" [] ["branch:flush"]
     | "clean" =>
       -- CleanDatabase: a planted plain key is listed as invalid too and makes DeleteBucket fail (nothing is deleted)
@@ -262,13 +263,6 @@ def stepOp (d : DS) (op implObs : String) : DS × String × List String × List 
       -- the last compaction has none in the compacted database
       finish d s "bf=same" (if implRes = "bf=same" then [] else [s!"C14 compact-invents-bitfield {implRes}"]) ["branch:bfcheck"]
     | "compact" =>
-      -- `CompactDatabase` reads the record of every registered torrent that has metadata: it fails when one is
-      -- missing (only after finding F08: `CleanDatabase` deleted the record of a live torrent)
-      if (compact s).isNone then
-        finish { d with lastCompact := none, implCompact := none } s (if implRes.startsWith "err:" then implRes else "err:compact")
-          [if d.taint.contains "idreuse" then "C14 known-F08-compact-fails-record-missing" else s!"C14 compact-failed res={implRes}"]
-          ["branch:compact-fails"]
-      else
       let c := (compact s).getD []
       -- oracle on the implementation's result
       let (cviol, implC) :=
@@ -301,7 +295,7 @@ def stepOp (d : DS) (op implObs : String) : DS × String × List String × List 
       | some c =>
         if updateStatsPanics s then
           ({ d with st := none }, "panic:close | nosession",
-            [if d.taint.contains "idreuse" then "C14 known-F08-updateStats-nil-bucket" else "C14 updateStats-nil-bucket"], ["branch:close-panics"])
+            ["C14 updateStats-nil-bucket"], ["branch:close-panics"])
         else
         let resume := kvBool toks "resume"
         let s' := openOn s.lo s.hi resume c
@@ -320,7 +314,7 @@ def stepOp (d : DS) (op implObs : String) : DS × String × List String × List 
     | "reopen" =>
       if updateStatsPanics s then
         ({ d with st := none }, "panic:close | nosession",
-          [if d.taint.contains "idreuse" then "C14 known-F08-updateStats-nil-bucket" else "C14 updateStats-nil-bucket"], ["branch:close-panics"])
+          ["C14 updateStats-nil-bucket"], ["branch:close-panics"])
       else
       let resume := kvBool toks "resume"
       let bucket := s.db ++ s.dead
